@@ -21,10 +21,12 @@ def oracle(prog, vec, mode, n, p, o, extra):
 def run(ctx):
     cfg = e1.standard_configs(ctx)
     e1.sweep(ctx, E.depth1_programs(include_fxp=True), cfg, "pv.checks.c04.oracle")
-    from ..recorder import BN128, CURVE25519
+    from ..recorder import BN128, CURVE25519, REAL_FIELDS
+    e1.sweep(ctx, E.huge_programs(), [(16, pp, E.huge_lattice(pp)) for pp in REAL_FIELDS.values()], "pv.checks.c04.oracle")
     d2 = X.depth2_family(ctx)
     cfg2 = [(2, BN128, E.D(2))] + ([(3, CURVE25519, E.D(2))] if ctx.thorough else [])
     e1.sweep(ctx, d2, cfg2, "pv.checks.c04.oracle", modes=E.MODES if ctx.thorough else ("ign", "g0"))
+    e1.bfs_sweep(ctx, {"value!=wire"}, ctx.thorough)
     e1.dedupe_violations(ctx)
     ctx.cov["traces_validated_against_impl"] = ctx.cov["executions"]
     ctx.cov["exhaustive"] = True
